@@ -55,7 +55,7 @@ struct Plan {
     cfg: Cfg,
     opts: Opts,
     /// scenario prefix (opcode codes) or empty
-    scenario: Vec<u8>,
+    scenario: Vec<Vec<u8>>,
 }
 
 fn safe_configs(p: u8) -> Vec<(String, Cfg)> {
@@ -125,17 +125,18 @@ fn plans(prop: &str, tier: &str) -> Vec<Plan> {
             memo_cfgs.push(("offbyone+memoindex@0.5", vec![Mk::Offbyone, Mk::Memoindex], 0.5));
         }
         for p in 0..=5u8 {
-            let put = match p {
-                0 => b'p',
-                1..=3 => b'q',
-                _ => 0x94,
+            // preference order per step: the short form first, then the long forms
+            let put: Vec<u8> = match p {
+                0 => vec![b'p'],
+                1..=3 => vec![b'q', b'r', b'p'],
+                _ => vec![0x94],
             };
             for n in [255usize, 256, 257] {
                 if quick && !((p == 1 || p == 4) || n == 256) {
                     continue;
                 }
-                let mut plan = vec![b'N'];
-                plan.extend(std::iter::repeat(put).take(n));
+                let mut plan = vec![vec![b'N']];
+                plan.extend(std::iter::repeat(put.clone()).take(n));
                 for (ml, muts, rate) in &memo_cfgs {
                     if quick && !muts.is_empty() && n != 256 {
                         continue;
@@ -156,9 +157,9 @@ fn plans(prop: &str, tier: &str) -> Vec<Plan> {
             // 40 MARKs / 300 scalars, then everything up to 2 (3) more opcodes
             let lp = if quick { 2 } else { 3 };
             let o = Opts { max_depth: 43, max_memo: 1, dev_budget: 0, frame: FrameSel::Off, max_path: lp, ..Opts::default() };
-            v.push(Plan { label: format!("P{p}/none/scenario-marks40"), cfg: Cfg::new(p).flags(true, true), opts: o, scenario: vec![b'('; 40] });
+            v.push(Plan { label: format!("P{p}/none/scenario-marks40"), cfg: Cfg::new(p).flags(true, true), opts: o, scenario: vec![vec![b'(']; 40] });
             let o = Opts { max_depth: 303, max_memo: 1, dev_budget: 0, frame: FrameSel::Off, max_path: lp, ..Opts::default() };
-            v.push(Plan { label: format!("P{p}/none/scenario-stack300"), cfg: Cfg::new(p).flags(true, true), opts: o, scenario: vec![b'N'; 300] });
+            v.push(Plan { label: format!("P{p}/none/scenario-stack300"), cfg: Cfg::new(p).flags(true, true), opts: o, scenario: vec![vec![b'N']; 300] });
         }
     }
     v
